@@ -49,7 +49,7 @@ with cf.ThreadPoolExecutor(max_workers=14) as ex:
         res.setdefault(name, {})[pid] = (rc, keys)
 for d in dirs:
     shutil.rmtree(d, ignore_errors=True)
-json.dump(res, open('/tmp/matrix.json', 'w'), indent=1)
+json.dump(res, open(os.environ.get('MATRIX_OUT', '/tmp/matrix.json'), 'w'), indent=1)
 print('%-8s %s' % ('mutant', ' '.join(p[1:] for p in PIDS)))
 for name in sorted(res):
     row = ''
